@@ -10,6 +10,7 @@ import (
 	"path/filepath"
 	"sort"
 	"strings"
+	"sync"
 	"time"
 
 	"verif/harness/world"
@@ -158,11 +159,103 @@ func hasSig(st Step, sig string) bool {
 func Confirm(sc Scenario, res *Result) {
 	for _, sig := range world.SortedKeys(res.Found) {
 		f := res.Found[sig]
-		s1, k1, _ := ReplayA(sc, f.Path)
-		s2, k2, _ := ReplayA(sc, f.Path)
-		if !hasSig(s1, sig) || !hasSig(s2, sig) || k1 != k2 {
-			res.HarnessErrors = append(res.HarnessErrors, fmt.Sprintf("non-deterministic replay at seam A for %q path %v", sig, f.Path))
-			continue
+		reproA := func(path []string) (Step, bool) {
+			s1, k1, _ := ReplayA(sc, path)
+			s2, k2, _ := ReplayA(sc, path)
+			return s1, hasSig(s1, sig) && hasSig(s2, sig) && k1 == k2
+		}
+		if _, ok := reproA(f.Path); !ok {
+			// The path that first showed this signature does not show it on a fresh replay: what was observed depended on
+			// something outside the replayed state (state kept outside the store by the code under check). Other paths that
+			// showed the same signature are tried in turn, shortest first; only a path that reproduces is reported.
+			first := f.Path
+			sort.SliceStable(f.Alts, func(a, b int) bool {
+				if len(f.Alts[a]) != len(f.Alts[b]) {
+					return len(f.Alts[a]) < len(f.Alts[b])
+				}
+				return strings.Join(f.Alts[a], "|") < strings.Join(f.Alts[b], "|")
+			})
+			found := false
+			for i, alt := range f.Alts {
+				if i >= 60 {
+					break
+				}
+				if s1, ok := reproA(alt); ok {
+					f.Path = alt
+					for _, v := range s1.Viols {
+						if v.Sig == sig {
+							f.Viol = v
+						}
+					}
+					f.ReproNote = fmt.Sprintf("first observed on path %v, which does not reproduce on a fresh replay", first)
+					found = true
+					break
+				}
+			}
+			if !found {
+				// Second fallback: the observation may need a preceding transaction that leaves the stored state unchanged (a
+				// rejected one, for instance), which the state-keyed search treats as a self-loop and never extends. For the
+				// shortest paths P+[ev] that showed the signature, every P+[e', ev] with e' enabled after P is replayed afresh.
+				cands := append([][]string{first}, f.Alts...)
+				if len(cands) > 40 {
+					cands = cands[:40]
+				}
+				type job struct{ path []string }
+				var jobs []job
+				seen := map[string]bool{}
+				for _, c := range cands {
+					if len(c) == 0 {
+						continue
+					}
+					pre, ev := c[:len(c)-1], c[len(c)-1]
+					ws := newWState(sc)
+					m := ws.m0
+					e2 := ws.base.Fork()
+					for _, x := range pre {
+						m = sc.Apply(e2, m, x).Model
+					}
+					for _, mid := range sc.Events(e2, m) {
+						p := append(append(append([]string{}, pre...), mid), ev)
+						if k := strings.Join(p, "|"); !seen[k] {
+							seen[k] = true
+							jobs = append(jobs, job{p})
+						}
+					}
+				}
+				hit := make([]bool, len(jobs))
+				var wg sync.WaitGroup
+				sem := make(chan struct{}, 16)
+				for i := range jobs {
+					wg.Add(1)
+					sem <- struct{}{}
+					go func(i int) {
+						defer wg.Done()
+						defer func() { <-sem; _ = recover() }()
+						s1, _, _ := ReplayA(sc, jobs[i].path)
+						hit[i] = hasSig(s1, sig)
+					}(i)
+				}
+				wg.Wait()
+				for i := range jobs {
+					if hit[i] {
+						if s1, ok := reproA(jobs[i].path); ok {
+							f.Path = jobs[i].path
+							for _, v := range s1.Viols {
+								if v.Sig == sig {
+									f.Viol = v
+								}
+							}
+							f.ReproNote = fmt.Sprintf("first observed on path %v, which does not reproduce on a fresh replay; reproduces with a preceding step that leaves the stored state unchanged", first)
+							found = true
+							break
+						}
+					}
+				}
+			}
+			if !found {
+				res.HarnessErrors = append(res.HarnessErrors, fmt.Sprintf("non-deterministic replay at seam A for %q path %v (and %d further paths)", sig, first, len(f.Alts)))
+				continue
+			}
 		}
 		sb, _, _, err := ReplayB(sc, f.Path)
 		if err != nil {
